@@ -672,7 +672,13 @@ impl Open for VirtualSystem {
         flags: EnumSet<OpenFlag>,
         mode: Mode,
     ) -> impl Future<Output = Result<Fd>> + use<> {
-        let resolution = self.resolve_file(path, access, flags, mode);
+        // Like a real kernel, fail before creating or truncating the file if
+        // there is no file descriptor to open it on.
+        let resolution = if self.current_process().has_unused_fd() {
+            self.resolve_file(path, access, flags, mode)
+        } else {
+            Err(Errno::EMFILE)
+        };
         let system = self.clone();
 
         async move {
@@ -1740,6 +1746,34 @@ mod tests {
         assert_eq!(system.current_process().fds().len(), fds_before + 1);
         drop(dir);
         assert_eq!(system.current_process().fds().len(), fds_before);
+    }
+
+    #[test]
+    fn open_creates_no_file_when_out_of_file_descriptors() {
+        let system = VirtualSystem::new();
+        let fd_count = system.current_process().fds().len() as u64;
+        system
+            .setrlimit(
+                Resource::NOFILE,
+                LimitPair {
+                    soft: fd_count,
+                    hard: fd_count,
+                },
+            )
+            .unwrap();
+
+        let result = system
+            .open(
+                c"new_file",
+                OfdAccess::WriteOnly,
+                OpenFlag::Create.into(),
+                Mode::ALL_9,
+            )
+            .now_or_never()
+            .unwrap();
+        assert_eq!(result, Err(Errno::EMFILE));
+        let result = system.fstatat(AT_FDCWD, c"new_file", true);
+        assert_eq!(result.unwrap_err(), Errno::ENOENT);
     }
 
     #[test]
